@@ -16,10 +16,12 @@ EXPLANATION = (
     "readers of 'max'-grammar files delegate to one parser; the d_type and fstatat branches of "
     "readDirFromDIR agree; the three effective-swap statistics are folds over the ancestor chain "
     "(every non-root value is min/max of the parent's effective value and the local one, one audited "
-    "local answer for swap.max = 0).  Parsing exactness and every formula (protection distribution, effective "
+    "local answer for swap.max = 0); io.stat keys are scanned into the fields of the same name, the io "
+    "cost adds the six counter x matching-coefficient products with the coefficients of the device's type; PSI tokens feed the fields of the same meaning in "
+    "both formats (token position, checked key name, field position), 'some'/'full' select line 0/1.  Parsing exactness and every formula (protection distribution, effective "
     "swap, io cost, EWMA, deltas) are numeric and not decided - that is most of the property.")
 RULE_SUMMARY = "sibling rule over the 29 cached accessors, E-PATH order in refresh, value shape of temporal getters, erase-in-iteration, must-follow in the tick, reader delegation"
-NOT_DECIDED = ["parsing exactness of every reader", "memory protection distribution", "effective swap max/free/utilisation as numbers (their recursion scheme is decided)", "io cost dot product",
+NOT_DECIDED = ["parsing exactness of every reader", "memory protection distribution", "effective swap max/free/utilisation as numbers (their recursion scheme is decided)", "io cost as a number (its three tables - scan keys, counter/coefficient pairing, device type - are decided)",
                "moving-average and per-tick delta recurrences as values"]
 ASSUMPTIONS = ["an inode number identifies a cgroup directory for as long as a descriptor to it is held"]
 
@@ -68,6 +70,116 @@ def effective_swap_scheme(ctx):
     ctx.floor("swap_scheme_returns", 3, "value returns of the three effective-swap getters")
 
 
+IO_PAIRS = {"rios": "read_iops", "rbytes": "readbw", "wios": "write_iops", "wbytes": "writebw", "dios": "trim_iops", "dbytes": "trimbw"}
+
+
+def io_cost_tables(ctx):
+    """io cost = dot product of the six io.stat counters with the six coefficients of the device's type: the three tables that
+    have to agree (scanf keys / destination fields, counter / coefficient pairing, device type / coefficient set)."""
+    P, cg = ctx.prog, ctx.cg
+    rd = ctx.fn1("Oomd::Fs::readIostatAt")
+    sc = [i for i in rd.calls("sscanf") if len(rd.nodes[i].get("args", [])) >= 3]
+    ctx.counters["iostat_scanf_sites"] = len(sc)
+    ctx.floor("iostat_scanf_sites", 1, "sscanf of an io.stat line")
+    for i in sc:
+        a = [rd.text(x) for x in rd.nodes[i]["args"]]
+        keys = re.findall(r"(\w+)=%", a[1])
+        dests = [re.sub(r"^&\w+\.", "", x) for x in a[2:] if "." in x]
+        ctx.check(keys == dests and len(keys) == 6 and set(keys) == set(IO_PAIRS), "iostat:key-goes-to-its-field", "table agreement (format keys / destinations)", rd.loc(i),
+                  "every io.stat key is scanned into the field of the same name: " + " ".join(keys),
+                  "io.stat keys %s are scanned into fields %s" % (keys, dests))
+        n_conv = len(re.findall(r"%[a-z]*d", a[1]))
+        fl = Flow(P, rd, cg=cg)
+        tests = [k for b in rd.cfg for j in range(len(b["succ"])) for k, p in fl.edge_facts(b["id"], j) if re.match(r"^\((ret != %d|%d != ret|%d == ret|ret == %d)\)$" % ((n_conv,) * 4), k)]
+        ctx.check(bool(tests), "iostat:all-conversions-required", "guard-shape", rd.loc(i), "a line counts only if all %d conversions succeeded" % n_conv,
+                  "the scanf result is not compared with the number of conversions (%d)" % n_conv)
+    gc = ctx.fn1("Oomd::CgroupContext::getIoCostCumulative")
+    ctx.anchor(gc, "stat", "coeffs", "cost")
+    sums = [i for i, n in enumerate(gc.nodes) if n["k"] == "bin" and n.get("op") == "+=" and gc.text(n["l"]) == "cost" and gc.pos_of(i) is not None]
+    ctx.counters["io_cost_accumulations"] = len(sums)
+    ctx.floor("io_cost_accumulations", 1, "cost += ... in getIoCostCumulative")
+    for i in sums:
+        prods = re.findall(r"\((?:stat\.(\w+) \* coeffs\.(\w+)|coeffs\.(\w+) \* stat\.(\w+))\)", gc.text(gc.nodes[i]["r"]))
+        pairs = {(a_ or d_): (b_ or c_) for a_, b_, c_, d_ in prods}
+        only_sum = re.sub(r"\((?:stat\.\w+ \* coeffs\.\w+|coeffs\.\w+ \* stat\.\w+)\)", "T", gc.text(gc.nodes[i]["r"]))
+        ctx.check(pairs == IO_PAIRS and len(prods) == 6 and re.match(r"^[T+() ]+$", only_sum) is not None, "io-cost:counter-times-its-coefficient", "table agreement (dot product)", gc.loc(i),
+                  "the cost adds the six products counter x matching coefficient", "the cost is %s (pairs %s)" % (gc.text(gc.nodes[i]["r"])[:160], pairs))
+    cb = case_blocks(gc)
+    fg = Flow(P, gc, cg=cg)
+    ws = [i for i, n in enumerate(gc.nodes) if n["k"] in ("bin", "call") and n.get("op") == "=" and gc.pos_of(i) is not None and gc.text(n.get("l", n.get("recv", -1))) == "coeffs"]
+    seen = {}
+    for w in ws:
+        n_ = gc.nodes[w]
+        rhs = gc.text(n_["r"]) if "r" in n_ else gc.text(n_["args"][0])
+        case = [p[5:] for k, p in fg.guards(w) if isinstance(p, str) and p.startswith("case:")]
+        seen[case[0] if case else "?"] = rhs
+    ctx.check(seen == {"SSD": "params.ssd_coeffs", "HDD": "params.hdd_coeffs"}, "io-cost:coefficients-of-the-device-type", "switch_table", gc.loc(),
+              "SSD devices use ssd_coeffs, HDD devices hdd_coeffs", "device type -> coefficients is %s" % seen)
+
+
+def psi_tables(ctx):
+    """PSI parsing: which token feeds which field (both formats), which line is read for some/full."""
+    P, cg = ctx.prog, ctx.cg
+    f = ctx.fn1("Oomd::Fs::readRespressureFromLines")
+    ctx.anchor(f, "toks", "pressure_line_index", "type_name")
+    fl = Flow(P, f, cg=cg)
+    X = Expander(P, f)
+    rp = P.classes.get("Oomd::ResourcePressure", {})
+    ctx.check([x["name"] for x in rp.get("fields", [])] == ["sec_10", "sec_60", "sec_300", "total"], "psi:struct-field-order", "type", "oomd/include/Types.h",
+              "ResourcePressure is {sec_10, sec_60, sec_300, total}", "ResourcePressure fields are " + str([x["name"] for x in rp.get("fields", [])]))
+    lines = {}
+    for w in local_writes(f, "pressure_line_index"):
+        case = [p[5:] for k, p in fl.guards(w) if isinstance(p, str) and p.startswith("case:")]
+        lines[case[0] if case else "?"] = f.text(write_rhs(f, w))
+    ctx.check(lines == {"SOME": "0", "FULL": "1"}, "psi:line-of-type", "switch_table", f.loc(), "'some' is the first line, 'full' the second", "line selection is %s" % lines)
+    KEYS = ["avg10", "avg60", "avg300", "total"]
+    n = 0
+    for r in returns(f):
+        g = fl.guards(r)
+        fmt = [p[5:] for k, p in g if isinstance(p, str) and p.startswith("case:") and "getPsiFormat" in k]
+        v = f.nodes[f.strip(f.nodes[r]["val"])] if "val" in f.nodes[r] else {}
+        il = None
+        for x in f.walk(f.nodes[r]["val"]) if "val" in f.nodes[r] else []:
+            if f.nodes[x]["k"] == "initlist" and len(f.nodes[x].get("kids", [])) == 4:
+                il = f.nodes[x]
+                break
+        if il is None:
+            continue
+        n += 1
+        els = [f.text(k) for k in il["kids"]]
+        if fmt == ["UPSTREAM"]:
+            ok, why = True, []
+            for pos, (e, key) in enumerate(zip(els, KEYS)):
+                m = re.search(r"sto\w+\((\w+)\[1\]", e)
+                if not m:
+                    ok = False
+                    why.append("field %d is %s" % (pos, e[:40]))
+                    continue
+                var = m.group(1)
+                init, vv = local_init(f, var, must=False)
+                src = X(init) if vv is not None else "?"
+                if not re.match(r"^Oomd::Util::split\(var:toks(@\d+)?\[%d\], 61\)$|^Oomd::Util::split\(Oomd::Util::split\(.*\)\[%d\], 61\)$" % (pos + 1, pos + 1), src):
+                    ok = False
+                    why.append("%s comes from %s (expected token %d)" % (var, src[:60], pos + 1))
+                if not any(p is True and k in ('("%s" == %s[0])' % (key, var), '(%s[0] == "%s")' % (var, key)) for k, p in g):
+                    ok = False
+                    why.append("no test %s[0] == \"%s\" dominates" % (var, key))
+            ctx.check(ok, "psi:upstream-token-to-field", "table agreement (token / key / field)", f.loc(r),
+                      "avg10/avg60/avg300/total are tokens 1-4, each checked by name, and fill sec_10/sec_60/sec_300/total in that order", "; ".join(why))
+            ctx.check(any(p is True and re.match(r"^\(toks(@\d+)?\[0\] == type_name\)$|^\(type_name == toks(@\d+)?\[0\]\)$", k) for k, p in g), "psi:upstream-line-label-checked", "guarded_by", f.loc(r),
+                      "the line's label (some/full) is checked", "the some/full label is not checked")
+        elif fmt == ["EXPERIMENTAL"]:
+            want = [r"^std::stof\(toks(@\d+)?\[%d\]" % k for k in (1, 2, 3)]
+            ctx.check(all(re.match(w_, e) for w_, e in zip(want, els[:3])) and els[3] == "std::nullopt", "psi:experimental-token-to-field", "table agreement (token / field)", f.loc(r),
+                      "tokens 1-3 fill sec_10/sec_60/sec_300, no total", "fields are %s" % els)
+            toks_init = [X(v_["init"]) for d_ in f.all("decl") for v_ in f.nodes[d_].get("vars", []) if v_["name"] == "toks" and "init" in v_ and f.pos_of(d_) is not None and
+                         any(isinstance(p, str) and p == "case:EXPERIMENTAL" for k, p in fl.guards(d_))]
+            ctx.check(toks_init and all("(var:pressure_line_index + 1)" in t or "pressure_line_index + 1" in t for t in toks_init), "psi:experimental-skips-aggr-line", "value-shape", f.loc(r),
+                      "the experimental format has one leading 'aggr' line", "experimental line index is %s" % toks_init)
+    ctx.counters["psi_value_returns"] = n
+    ctx.floor("psi_value_returns", 2, "value returns of readRespressureFromLines (upstream, experimental)")
+
+
 def run(ctx):
     P, cg = ctx.prog, ctx.cg
     # ------------------------------------------------ cached accessors
@@ -112,6 +224,8 @@ def run(ctx):
     ctx.floor("proxy_instances", 5, "instantiations of proxy()")
 
     effective_swap_scheme(ctx)
+    io_cost_tables(ctx)
+    psi_tables(ctx)
     # prefer/avoid xattrs parse exactly: the same reader rule as C03 (prefer probed before avoid in both namespaces)
     from .C03 import kill_preference_reader
     kill_preference_reader(ctx)
